@@ -319,6 +319,8 @@ def call_np(ip, name, args, kwargs, lineno):
         if isinstance(xs, (list, tuple)):
             arrs = [as_arr(ip, x) for x in xs]
             return concat_list(arrs)
+        if hasattr(xs, "cat"):
+            return xs.cat          # abstract list of arrays tracked by its concatenation (contracts/c01.py CatList)
         raise Unsupported("np.concatenate of a symbolic list (needs contract support)")
     if name in ("all", "any"):
         a = args[0]
